@@ -104,6 +104,59 @@ impl C03 {
         match run_family(f, case.start, &case.bytes, false) {
             Ok(d) => {
                 judge_strict(rep, "", name, &case.bytes, &r, &d.whole.out);
+                // the packet-level accessor methods against the reference layers
+                if d.whole.out.err.is_none() && r.fault.is_none() {
+                    let acc = &d.whole.acc;
+                    let get = |k: &str| acc.iter().find(|x| x.0 == k).map(|x| x.1);
+                    let mut bad: Option<String> = None;
+                    // ether_payload(): the payload of the innermost link / link extension layer
+                    if let Some(l) = r.layers.iter().rev().find(|l| matches!(l.kind, Kind::Eth | Kind::EtherStart | Kind::Vlan | Kind::Macsec)) {
+                        let ety = if l.kind == Kind::Macsec { l.get("next_ety").filter(|v| *v != 0) } else { l.get("ety") };
+                        if let (Some(ety), Some(off), Some(len)) = (ety, l.get("~pay_off"), l.get("~pay_len")) {
+                            let unmod_macsec_or_other = l.kind != Kind::Macsec || l.get("next_ety").map(|v| v != 0).unwrap_or(false);
+                            if unmod_macsec_or_other {
+                                if get("ether.ety") != Some(ety) || get("ether.off") != Some(off) || get("ether.len") != Some(len) {
+                                    bad = Some(format!(
+                                        "ether_payload() = (type {:?}, offset {:?}, len {:?}) but the innermost {:?} layer has (type {}, offset {}, len {})",
+                                        get("ether.ety"), get("ether.off"), get("ether.len"), l.kind, ety, off, len
+                                    ));
+                                }
+                                // a length source other than the slice only where a MACsec short length limits the data
+                                let macsec_limit = r.layers.iter().any(|x| x.kind == Kind::Macsec && x.get("~pay_src") == Some(Src::MacsecShort as u8 as u128));
+                                if let Some(s) = get("ether.src") {
+                                    if s != Src::Slice.bit() as u128 && !(macsec_limit && s == Src::MacsecShort.bit() as u128) {
+                                        bad = Some(format!("ether_payload().len_source bit {} although no MACsec short length limits the payload", s));
+                                    }
+                                }
+                            }
+                        }
+                    }
+                    // ip_payload()
+                    if let Some(l) = r.layers.iter().find(|l| matches!(l.kind, Kind::Ipv4 | Kind::Ipv6)) {
+                        if let (Some(num), Some(off), Some(len)) = (l.get("pay_num"), l.get("~pay_off"), l.get("~pay_len")) {
+                            if get("ip.num") != Some(num) || get("ip.off") != Some(off) || get("ip.len") != Some(len) {
+                                bad = Some(format!(
+                                    "ip_payload() = (number {:?}, offset {:?}, len {:?}) but the IP layer has (number {}, offset {}, len {})",
+                                    get("ip.num"), get("ip.off"), get("ip.len"), num, off, len
+                                ));
+                            }
+                            if let Some(fr) = l.get("fragmented") {
+                                if get("ip.frag") != Some(fr) || get("is_ip_payload_fragmented") != Some(fr) {
+                                    bad = Some(format!("ip_payload().fragmented {:?} / is_ip_payload_fragmented() {:?} but the IP layer says {}", get("ip.frag"), get("is_ip_payload_fragmented"), fr));
+                                }
+                            }
+                        }
+                    }
+                    // vlan_ids(): the ids of the VLAN layers, outermost first
+                    let want_ids = r.layers.iter().filter(|l| l.kind == Kind::Vlan).fold(1u128, |a, l| (a << 16) | l.get("vid").unwrap_or(0));
+                    if get("vlan_ids") != Some(want_ids) {
+                        bad = Some(format!("vlan_ids() packs to {:?}, the VLAN layers give {}", get("vlan_ids"), want_ids));
+                    }
+                    match bad {
+                        Some(b) => rep.violation(&format!("packet_accessor|{}|{}", name, b.split('(').next().unwrap_or("").trim()), format!("{}: {}", name, b), &case.bytes),
+                        None => rep.count("packet_accessors_agree"),
+                    }
+                }
                 if d.whole.budget_exceeded {
                     rep.note("NOTE iterator budget exceeded (C02)");
                 }
